@@ -118,6 +118,12 @@ C08_Left(e) ==
      /\ ~(AboutSelf(e) /\ ~e.leave))
     => e.post.state = "left"
 
+\* ... and remembers the incarnation of the departure: otherwise an alive message no newer
+\* than the departure could bring the member back later
+C08_LeftAt(e) ==
+  (IsNodeOp(e) /\ e.op = "dead" /\ e.claim.from = e.claim.node /\ e.post # e.pre /\ e.post.state = "left")
+    => e.post.inc >= e.claim.inc
+
 C08_NoResurrect(e) ==
   (IsNodeOp(e) /\ e.op = "alive" /\ e.pre.state = "left" /\ ~AddrDiffers(e) /\ e.claim.inc <= e.pre.inc
      /\ ~(AboutSelf(e) /\ e.boot))
@@ -159,7 +165,7 @@ C18_Source(e)  == (e.ev = "UdpAlive" /\ e.cfg.allowOn /\ ~e.srcAllowed) => e.nod
 -----------------------------------------------------------------------------
 (* all single-step membership predicates, by name - used by models and trace specs *)
 StepProps == <<"C01_StaleNoEffect", "C01_Forward", "C02_Refute", "C02_MergeReaches", "C02_SelfAlive", "C07_Serial",
-               "C08_Left", "C08_NoResurrect", "C08_LeaverStays", "C08_NoHijack", "C08_Reuse",
+               "C08_Left", "C08_LeftAt", "C08_NoResurrect", "C08_LeaverStays", "C08_NoHijack", "C08_Reuse",
                "C09_Hearsay", "C18_Records", "C18_Events", "C18_Adopt", "C18_Source">>
 
 StepHolds(name, e) ==
@@ -170,6 +176,7 @@ StepHolds(name, e) ==
     [] name = "C02_SelfAlive"     -> C02_SelfAlive(e)
     [] name = "C07_Serial"        -> C07_Serial(e)
     [] name = "C08_Left"          -> C08_Left(e)
+    [] name = "C08_LeftAt"        -> C08_LeftAt(e)
     [] name = "C08_NoResurrect"   -> C08_NoResurrect(e)
     [] name = "C08_LeaverStays"   -> C08_LeaverStays(e)
     [] name = "C08_NoHijack"      -> C08_NoHijack(e)
@@ -190,6 +197,8 @@ StepAnte(name, e) ==
     [] name = "C02_SelfAlive"     -> e.ev \in {"NodeOp", "Reap"} /\ ~e.leave /\ e.created
     [] name = "C07_Serial"        -> e.ev \in {"NodeOp", "Reap"} /\ e.events # <<>>
     [] name = "C08_Left"          -> IsNodeOp(e) /\ e.op = "dead" /\ e.claim.from = e.claim.node /\ e.post # e.pre
+    [] name = "C08_LeftAt"        -> IsNodeOp(e) /\ e.op = "dead" /\ e.claim.from = e.claim.node /\ e.post # e.pre
+                                     /\ e.post.state = "left"
     [] name = "C08_NoResurrect"   -> IsNodeOp(e) /\ e.op = "alive" /\ e.pre.state = "left" /\ ~AddrDiffers(e)
                                      /\ e.claim.inc <= e.pre.inc
     [] name = "C08_LeaverStays"   -> IsNodeOp(e) /\ e.op = "alive" /\ AboutSelf(e) /\ e.leave
